@@ -482,14 +482,27 @@ func Gen(r *R, o *Options) *Def {
 		d.Extra += " +R_A" // the sphere of equal surface area instead of the ellipsoid
 		d.RA = true
 	}
-	if !o.NoOmit && (d.Proj == "lcc" || d.Proj == "aea" || d.Proj == "eqdc" || d.Proj == "tmerc" || d.Proj == "merc") && o.Area == nil && r.Chance(0.12) {
+	if !o.NoOmit && (d.Proj == "lcc" || d.Proj == "aea" || d.Proj == "eqdc" || d.Proj == "tmerc" || d.Proj == "merc") && r.Chance(0.12) {
 		// parameters at their PROJ.4 default (zero) that are simply not written: false origin,
-		// latitude of origin, central meridian
-		for _, key := range []string{"x_0", "y_0", "lat_0", "lon_0"} {
+		// latitude of origin, central meridian (the last only when the caller has not tied the
+		// definition to an area); for a one-parallel Lambert also lat_2, which defaults to lat_1
+		keys := []string{"x_0", "y_0", "lat_0", "lon_0"}
+		if o.Area != nil {
+			keys = keys[:3]
+		}
+		if form == "lcc_1sp" {
+			keys = append(keys, "lat_2")
+		}
+		for _, key := range keys {
 			if r.Chance(0.4) {
 				continue
 			}
-			re := regexp.MustCompile(` \+` + key + `=[^ ]+`)
+			re := clauseRe(key)
+			if key == "lat_2" {
+				d.Params = re.ReplaceAllString(d.Params, "")
+				d.OmittedDefaults = true
+				continue
+			}
 			if !re.MatchString(d.Params) {
 				continue
 			}
@@ -505,4 +518,58 @@ func Gen(r *R, o *Options) *Def {
 		}
 	}
 	return d
+}
+
+var clauseRes = func() map[string]*regexp.Regexp {
+	m := map[string]*regexp.Regexp{}
+	for _, name := range []string{"x_0", "y_0", "lat_0", "lon_0", "lat_2", "lat_ts", "k_0"} {
+		m[name] = regexp.MustCompile(` \+` + name + `=[^ ]+`)
+	}
+	return m
+}()
+
+func clauseRe(name string) *regexp.Regexp { return clauseRes[name] }
+
+// Twin returns a copy of d that differs from it in exactly one optional clause:
+// a clause d writes is left out (so the parameter takes its default), or a clause d
+// leaves out is written with a non-default value. what names the clause. The twin has
+// the same projection, ellipsoid, datum and units; nil if no clause qualifies.
+func Twin(r *R, d *Def) (t *Def, what string) {
+	names := []string{"x_0", "y_0"}
+	switch d.Proj {
+	case "merc":
+		names = append(names, "lat_ts")
+	case "lcc", "aea", "eqdc", "tmerc":
+		names = append(names, "lat_0")
+	}
+	names = append(names, "pm")
+	name := names[r.Intn(len(names))]
+	c := *d
+	if name == "pm" {
+		if d.PM != "" {
+			c.PM, c.PMDeg = "", 0
+			return &c, "pm:omitted"
+		}
+		v := r.Range(-8, 8)
+		c.PM, c.PMDeg = " +pm="+F(v), v
+		return &c, "pm:added"
+	}
+	re := clauseRe(name)
+	if m := re.FindString(d.Params); m != "" {
+		c.Params = re.ReplaceAllString(d.Params, "")
+		if v, err := strconv.ParseFloat(m[strings.Index(m, "=")+1:], 64); err == nil && v == 0 {
+			// the clause spelled the default: the twin is the same system written differently
+			return &c, name + ":default_omitted"
+		}
+		return &c, name + ":omitted"
+	}
+	switch name {
+	case "x_0", "y_0":
+		c.Params += " +" + name + "=" + F(math.Round(r.Range(-2e6, 2e6)))
+	case "lat_0":
+		c.Params += " +lat_0=" + F(r.Range(-20, 20))
+	default:
+		return nil, ""
+	}
+	return &c, name + ":added"
 }
